@@ -174,6 +174,33 @@ func c18Validate(c *Ctx) {
 			}
 		}
 		if mc == nil {
+			// the closure may come from a constructor: adder(rule.Name, &errs) returning a closure that tags with its parameter
+			for _, a := range ci.Common().Args {
+				call, ok := stripConv(a).(*ssa.Call)
+				if !ok {
+					continue
+				}
+				mk := call.Call.StaticCallee()
+				if mk == nil || !p.inModule(mk) || len(mk.Blocks) == 0 {
+					continue
+				}
+				j := taggingParam(mk, errT)
+				if j < 0 || j >= len(call.Call.Args) {
+					continue
+				}
+				// the argument is the Name of the very rule whose RuleFunc is called
+				if ld2, ok := stripConv(call.Call.Args[j]).(*ssa.UnOp); ok {
+					if fa2, ok := ld2.X.(*ssa.FieldAddr); ok {
+						if _, n2, _, _ := fieldOf(fa2); n2 == "Name" && fa2.X == fa.X {
+							nAlloc++
+							r3.OK("RuleFunc call", "the addError made by "+p.FuncName(mk)+" tags every error with the Name of that same rule variable")
+							return
+						}
+					}
+				}
+				r3.Fail(ci.Pos(), p.FuncName(fn), "RuleFunc/closure mismatch", "the addError constructor is not given the Name of the rule whose RuleFunc is called")
+				return
+			}
 			r3.Fail(ci.Pos(), p.FuncName(fn), "RuleFunc call", "RuleFunc is not handed a fresh addError closure")
 			return
 		}
@@ -847,4 +874,59 @@ func treeWrites(c *Ctx, e *effects, scope map[*ssa.Function]bool, r *RuleResult,
 		}
 	}
 
+}
+
+// taggingParam: mk returns a closure that allocates an Error whose Rule field is set from mk's parameter #j
+// (captured by the closure); returns j or -1.
+func taggingParam(mk *ssa.Function, errT *types.Named) int {
+	for _, ret := range returnsOf(mk) {
+		for _, rv := range ret.Results {
+			mc, ok := stripConv(rv).(*ssa.MakeClosure)
+			if !ok {
+				continue
+			}
+			cl := mc.Fn.(*ssa.Function)
+			res := -1
+			allInstrs(cl, func(in ssa.Instruction) {
+				al, ok := in.(*ssa.Alloc)
+				if !ok || namedOf(al.Type()) != errT {
+					return
+				}
+				for _, v := range fieldStores(al, "Rule") {
+					v = stripConv(v)
+					// a captured parameter: by value (FreeVar of string type) or through its cell
+					var fv *ssa.FreeVar
+					switch x := v.(type) {
+					case *ssa.FreeVar:
+						fv = x
+					case *ssa.UnOp:
+						fv, _ = x.X.(*ssa.FreeVar)
+					}
+					if fv == nil {
+						continue
+					}
+					for i, f := range cl.FreeVars {
+						if f != fv || i >= len(mc.Bindings) {
+							continue
+						}
+						b := mc.Bindings[i]
+						if prm, ok := b.(*ssa.Parameter); ok {
+							res = paramIndex(mk, prm)
+						}
+						if al2, ok := b.(*ssa.Alloc); ok {
+							for _, sv := range storesTo(al2) {
+								if prm, ok := sv.(*ssa.Parameter); ok {
+									res = paramIndex(mk, prm)
+								}
+							}
+						}
+					}
+				}
+			})
+			if res >= 0 {
+				return res
+			}
+		}
+	}
+	return -1
 }
